@@ -12,6 +12,7 @@ var Registry = map[string]func(*core.Ctx){
 	"C01": C01,
 	"C04": C04,
 	"C08": C08,
+	"C09": C09,
 	"C10": C10,
 	"C12": C12,
 	"C13": C13,
